@@ -12,6 +12,12 @@ import FqModel.Binary
     expl <B>               obs(B) ; obs(B|explode)
     num <n>                obs(n|tobits) ; obs(n|tobits|tonumber) ; obs([n]|tobytes) ; obs(n|tobytes)
     bad <V>                obs(V|tobits) ; obs(V|tobytes) ; obs([V]|tobytes) ; obs(V|to_hex) ; obs(V|tobytesrange)
+    memb <N>               obs(N) ; obs([N]|tobytes) ; obs([1,"a",N]|tobytes) ; obs([N,("a"|tobits)]|tobytes) ; obs([[N]]|tobits)
+                           N a number expression whose Go type may be *big.Int (results of .[i], .size, tonumber, `- k`)
+    fcat <seed> <len> <pre> <a1> <b1> <a2> <b2>    file-backed binary $b of <len> pseudo-random bytes (splitmix64 of <seed>)
+                           opened through fq's `open`; pre=1: `$b|tostring` first, pre=2: `$b[a2:b2]|tostring` first;
+                           obs = size ; h:<bytes>:<fnv1a64> of `[$b[a1:b1], $b[a2:b2]] | tobytes | tostring`
+    fsl <seed> <len> <pre> <a> <b> <c> <d>         the same for `$b[a:b][c:d] | tostring`
 
   E is an s-expression (see `toE`).  The verdict is PROPFAIL when the implementation's own observations
   falsify the law (evaluated on the observations with plain list arithmetic, not with the model),
@@ -87,6 +93,7 @@ partial def toE : SX → Option E
   | .list [.atom "str", x] => (toE x).map E.toString
   | .list [.atom "expl", x] => (toE x).map E.explode
   | .list [.atom "hex", x] => (toE x).map E.toHex
+  | .list [.atom "sub", .atom k, x] => do let k ← k.toInt?; (toE x).map (E.sub k)
   | _ => none
 
 def parseE (toks : List String) : Option E :=
@@ -167,6 +174,82 @@ def first? (cs : List (Bool × String)) : Option String :=
   match cs.find? (fun c => !c.1) with
   | some c => some c.2
   | none => none
+
+/-! file-backed binaries: the file is regenerated here from (seed, length) exactly as hlib.Rand.Bytes does -/
+
+def splitmix (s : UInt64) : UInt64 × UInt64 :=
+  let s := s + 0x9e3779b97f4a7c15
+  let z := (s ^^^ (s >>> 30)) * 0xbf58476d1ce4e5b9
+  let z := (z ^^^ (z >>> 27)) * 0x94d049bb133111eb
+  (s, z ^^^ (z >>> 31))
+
+def fileBytes (seed : UInt64) (n : Nat) : ByteArray := Id.run do
+  let mut s := seed
+  let mut out := ByteArray.emptyWithCapacity n
+  for _ in [0:n] do
+    let (s', v) := splitmix s
+    s := s'
+    out := out.push v.toUInt8
+  return out
+
+/-- FNV-1a 64 continued over bytes [off, off+len) of `ba` -/
+def fnvRange (h : UInt64) (ba : ByteArray) (off len : Nat) : UInt64 := Id.run do
+  let mut h := h
+  for i in [off:off + len] do
+    h := (h ^^^ (ba.get! i).toUInt64) * 0x100000001b3
+  return h
+
+def fnvInit : UInt64 := 0xcbf29ce484222325
+
+def hex16 (v : UInt64) : String :=
+  String.ofList ((List.range 16).map fun i => hexDigit ((v >>> (UInt64.ofNat (60 - 4 * i))).toNat % 16))
+
+/-- plain reference: byte range [lo, hi) selected by `.[a:b]` on `l` bytes -/
+def refRange (l : Nat) (a b : Option Int) : Nat × Nat :=
+  let st := match a with | some i => refClamp i 0 l | none => 0
+  let en := match b with | some i => refClamp i st l | none => l
+  (st.toNat, en.toNat)
+
+def hashObs (ba : ByteArray) (rs : List (Nat × Nat)) : String :=
+  let total := rs.foldl (fun acc (_, n) => acc + n) 0
+  let h := rs.foldl (fun h (off, n) => fnvRange h ba off n) fnvInit
+  s!"n:{total} ; h:{total}:{hex16 h}"
+
+abbrev FileCache := Option (UInt64 × Nat × ByteArray)
+
+def getFile (c : FileCache) (seed : UInt64) (n : Nat) : FileCache × ByteArray :=
+  match c with
+  | some (s, m, ba) => if s == seed && m == n then (c, ba) else let ba := fileBytes seed n; (some (seed, n, ba), ba)
+  | none => let ba := fileBytes seed n; (some (seed, n, ba), ba)
+
+/-- byte range of a model binary over the file (unit 8, byte aligned by construction) -/
+def binRange (b : Bin) : Nat × Nat := (b.start / 8, b.len / 8)
+
+def stepFile (c : FileCache) (toks : List String) (obs : String) : FileCache × String :=
+  match toks with
+  | [kind, seed, len, _pre, a, b, c', d] =>
+    match seed.toNat?, len.toNat?, optInt a, optInt b, optInt c', optInt d with
+    | some seed, some len, some a, some b, some c', some d =>
+      if len > 64000000 then (c, "BADOP file-too-large") else
+      let (c, ba) := getFile c (UInt64.ofNat seed) len
+      let root : Bin := { src := [], start := 0, len := 8 * len, unit := 8, pad := 0 }
+      if kind == "fcat" then
+        let m := hashObs ba [binRange (root.slice a b), binRange (root.slice c' d)]
+        let (l1, h1) := refRange len a b
+        let (l2, h2) := refRange len c' d
+        let r := hashObs ba [(l1, h1 - l1), (l2, h2 - l2)]
+        (c, if obs != r then s!"PROPFAIL file-slice-concat want={r}" ++ (if m == obs then "" else s!" ;DIVERGE model={m}")
+            else if m == obs then "OK" else s!"DIVERGE model={m}")
+      else if kind == "fsl" then
+        let m := hashObs ba [binRange ((root.slice a b).slice c' d)]
+        let (l1, h1) := refRange len a b
+        let (l2, h2) := refRange (h1 - l1) c' d
+        let r := hashObs ba [(l1 + l2, h2 - l2)]
+        (c, if obs != r then s!"PROPFAIL file-slice-slice want={r}" ++ (if m == obs then "" else s!" ;DIVERGE model={m}")
+            else if m == obs then "OK" else s!"DIVERGE model={m}")
+      else (c, "BADOP op")
+    | _, _, _, _, _, _ => (c, "BADOP parse")
+  | _ => (c, "BADOP parse")
 
 def stepC09 (op obs : String) : String :=
   let toks := tokenize op
@@ -314,6 +397,32 @@ def stepC09 (op obs : String) : String :=
         | _ => some "arity"
       finish law es obs
     | none => "BADOP parse"
+  | "memb" :: rest =>
+    match parseE rest with
+    | some x =>
+      let es := [x, .toBits 8 false 0 (.arr [x]), .toBits 8 false 0 (.arr [.int 1, .str [0x61], x]),
+                 .toBits 8 false 0 (.arr [x, .toBits 1 false 0 (.str [0x61])]), .toBits 1 false 0 (.arr [.arr [x]])]
+      let law : Option String :=
+        match os with
+        | [on, o1, o2, o3, o4] =>
+          if isErr on then (if [o1, o2, o3, o4].all isErr then none else some "error-not-propagated")
+          else if on == "z" then (if [o1, o2, o3, o4].all (· == "err:notbinary") then none else some "null-member-accepted")
+          else match parseN on with
+          | some n =>
+            if n < 0 || n > 255 then
+              (if [o1, o2, o3, o4].all (· == "err:byterange") then none else some "array-member-range")
+            else
+              let byte := toBitsBE 8 n.toNat
+              let a := toBitsBE 8 0x61
+              let want := [(8, 8, byte), (8, 24, toBitsBE 8 1 ++ a ++ byte), (8, 16, byte ++ a), (1, 8, byte)]
+              let got := [o1, o2, o3, o4].map parseB
+              if (got.zip want).all (fun (g, (u, l, bits)) => match g with
+                  | some pb => pb.unit == u && pb.start == 0 && pb.len == l && pb.bits == bits
+                  | none => false) then none else some "array-member-byte"
+          | none => some "unparsable-observation"
+        | _ => some "arity"
+      finish law es obs
+    | none => "BADOP parse"
   | "bad" :: rest =>
     match parseE rest with
     | some x =>
@@ -324,4 +433,10 @@ def stepC09 (op obs : String) : String :=
     | none => "BADOP parse"
   | _ => "BADOP op"
 
-def main : IO Unit := run stepC09
+def stepAll (c : FileCache) (op obs : String) : FileCache × String :=
+  match words op with
+  | "fcat" :: _ => stepFile c (words op) obs
+  | "fsl" :: _ => stepFile c (words op) obs
+  | _ => (c, stepC09 op obs)
+
+def main : IO Unit := runSt (none : FileCache) stepAll
